@@ -12,7 +12,7 @@ S = Sym
 PROPERTY = 'C15'
 PROPS_MODULES = ['C15']
 ASSUMPTIONS = ['sets returned by the implementation are compared as sorted lists (order of a Python set is not observable)']
-NAMES = ['A', 'B', 'a', 'i', 'j', 'zz', 'M1']
+NAMES = ['A', 'B', 'a', 'i', 'j', 'zz', 'M1', 'X', 'Y']
 
 
 def impl_query(e):
@@ -174,6 +174,23 @@ def run(ctx):
             continue
         for ev in ast.events():
             events.append((ev, txt))
+
+    # 4. events built through the API with every alias / reference placement over {X, Y} (valid or not as properties)
+    from hpl.ast import HplSimpleEvent, HplEventDisjunction
+    from hpl.parser import predicate_parser
+    prp = predicate_parser()
+    pr = {rs: prp.parse('{x > 0' + ''.join(f' and @{r}.v > 0' for r in rs) + '}') for rs in [(), ('X',), ('Y',), ('X', 'Y')]}
+    simple_evs = [(a, rs) for a in (None, 'X', 'Y') for rs in pr]
+    import itertools as _it
+    for (a1, r1), (a2, r2) in _it.product(simple_evs, repeat=2):
+        e1 = HplSimpleEvent.publish('t1', pr[r1], alias=a1)
+        e2 = HplSimpleEvent.publish('t2', pr[r2], alias=a2)
+        events.append((e1, f'api: t1 as {a1} refs {r1}'))
+        events.append((HplEventDisjunction(e1, e2), f'api: (t1 as {a1} refs {r1} or t2 as {a2} refs {r2})'))
+    for _ in range(60 if ctx.quick else 600):
+        parts = [HplSimpleEvent.publish(f't{i}', pr[rng.choice(list(pr))], alias=rng.choice([None, 'X', 'Y'])) for i in range(3)]
+        d = HplEventDisjunction(HplEventDisjunction(parts[0], parts[1]), parts[2]) if rng.random() < 0.5 else HplEventDisjunction(parts[0], HplEventDisjunction(parts[1], parts[2]))
+        events.append((d, 'api: random width-3 disjunction'))
 
     disagreements, violations = [], []
     lines_m, lines_s = [], []
